@@ -423,6 +423,14 @@ def judge(d):
                 alias.append(extra_r)
                 models[-1] = MTable(cols, models[-1].rows + extra_rows)
         elif name == "with_features":
+            if op.get("lit") and n > 0 and "lit" not in cols:
+                # a constant column (a polars literal), also on a table that has no feature column yet
+                res = real.with_features(pl.lit(7).alias("lit"))
+                COLS.setdefault("lit", "int")
+                add(res, MTable(cols + ["lit"], [{"uid": r["uid"], "f": {**r["f"], "lit": 7}} for r in mt.rows]))
+                if not check_all(tag):
+                    return out
+                continue
             src = [c for c in cols if COLS.get(c) in ("int", "float")]
             if not src or n == 0:
                 continue
@@ -592,6 +600,7 @@ def op_strategy(draw, palette):
         op["target"] = draw(st.integers(0, 1))
     elif name in ("with_features", "drop_features"):
         op["ci"] = draw(st.integers(0, 5))
+        op["lit"] = draw(st.integers(0, 2)) == 0
     elif name == "group_by":
         op["keys"] = draw(st.lists(st.integers(0, 5), min_size=1, max_size=2))
     elif name == "cutby":
